@@ -45,6 +45,15 @@ CHECKS = {
         note=NOTE + " Traits that are not dyn-compatible are pruned for ref/Borrow; dyn delegation of a generic trait is exercised with `G: 'static`.",
         technique="bounded-exhaustive enumeration of trait definitions on the real macro; executed trace + runtime availability truth table vs model",
         ref="DESIGN.md §3 C06"),
+    "C07": dict(
+        text="Every method word of length <= 2 (quick) / <= 3 (thorough) over 10 shapes (0-2 same-typed arguments, &str, named lifetimes with and without "
+             "the lifetime on the receiver, four async shapes; same-signature pairs included) x {static `delegate_by = Sel`, dynamic `delegate_by = ref` "
+             "(+ async_trait when async)} x 6 assignments of further dependency bounds to the block's fns (0/1/2 bounds, increasing, decreasing, disjoint), "
+             "with two competing target types X1/X2 of identical method names selected by AppA/AppB: every call must produce exactly one event, from the "
+             "selected target's function of that name, whose deps argument is the caller's &Impl<App> (address + type), arguments in order, result unchanged; "
+             "the block's functions call further (non-blanket) dependencies through deps.",
+        note=NOTE, technique="bounded-exhaustive enumeration of delegated traits + impl blocks on the real macro; executed trace vs model",
+        ref="DESIGN.md §3 C07"),
     "C08": dict(
         text="Every module item word up to the bound (full 30-symbol alphabet: every visibility and every const/async/unsafe/extern "
              "qualifier combination on visible and private fns, structs+impls, nested mods, extern blocks, macro_rules, body-less "
